@@ -36,6 +36,10 @@ type caseSpec struct {
 const ruleText = "front-ends: PRNG transaction programs (INSERT/UPSERT/UPDATE/DELETE/SELECT/COUNT on two tables, injected duplicate-key / NOT NULL / unknown-column failures, SAVEPOINT/ROLLBACK TO/RELEASE, reads from another session while open) in 2-5 concurrent sessions against a real in-process server with a fresh data directory per case, through gRPC sessions (NewTx RW/RO, TxSQLExec, TxSQLQuery, Commit, Rollback, CloseSession, expiry, second NewTx while open, literal/named parameters, autocommit SQLExec) and through the PostgreSQL wire protocol (blocks, autocommit, simple/extended/prepared, one-message blocks, drop/Terminate); distinct = (front-end × mode × protocol × statement shape × end × outcome) observed"
 
 func RunFrontends(c *fw.Ctx) {
+	if os.Getenv("VERIF_C13S_PROBE") != "" { // development aid
+		probe(c)
+		return
+	}
 	if c.Rule == "" {
 		c.Rule = ruleText
 	} else {
@@ -247,7 +251,7 @@ func frontendCase(c *fw.Ctx, data []byte) {
 		}
 		if t.Aborted != "" {
 			switch t.Aborted {
-			case "dup", "notnull", "readonly":
+			case "dup", "notnull", "readonly", "syntax", "copy-row-error", "use":
 			default:
 				// an error outside the model's vocabulary (the API may return it): counted, the statement-level oracle is not applied
 				c.Count("unexpected_error/"+feName[t.P.FE]+"/"+t.Aborted, 1)
